@@ -12,7 +12,7 @@ CFG = {
                    "Scenario 'enumerate' additionally enumerates schedules of <=3 actors x <=3 operations with ALL gates armed: every schedule is re-run from the start with a forced list of choices "
                    "('which parked goroutine next'), remaining choices = first of the parked list (rotated so that the goroutine that ran last continues until it yields at a harness gate, then round-robin), "
                    "explored breadth-first by the number of deviations from that default schedule"),
-    "level_note": ("scenario node-balance checks "never leaks" on a real measure or stream node: writes in the last hour of a day (rotation pre-creates the next, shard-less segment), ordered/unordered queries with ranges reaching beyond now, then ttl+4 quiet days with a retention run each, after which every segment directory lying more than a day before now-TTL must be gone (a leaked reference defers deletion forever); trusted: the holder-count model, the gate inserter (tools/gaterw) and simcore's cooperative locks; 'enumerate' is exhaustive only at gate granularity (not machine instructions), only for the "
+    "level_note": ("scenario node-balance checks 'never leaks' on a real measure or stream node: writes in the last hour of a day (rotation pre-creates the next, shard-less segment), ordered/unordered queries with ranges reaching beyond now, then ttl+4 quiet days with a retention run each, after which every segment directory lying more than a day before now-TTL must be gone (a leaked reference defers deletion forever); trusted: the holder-count model, the gate inserter (tools/gaterw) and simcore's cooperative locks; 'enumerate' is exhaustive only at gate granularity (not machine instructions), only for the "
                    "actor programs sampled by the seed, and only up to the per-seed budget of 300 schedules: all schedules with 0 and 1 deviations from the default schedule are covered (probe "
                    "reach.enum_level1_complete), those with 2 deviations only for small programs (reach.enum_level2_complete), deeper levels are cut by the budget (reach.enum_budget_exhausted; "
                    "reach.enum_all_schedules_complete counts the seeds whose whole schedule tree fitted); in 'enumerate' the reopen+retention epilogue runs for every 4th schedule only; "
